@@ -29,7 +29,8 @@ EXPLANATION = (
     "that must equal the volume flow the result extraction reports (liquids) / the inlet volume flow (gases). (R3.4) "
     "LOAD += group sum of in_service*scaling*sign*nan_to_num(mdot) per junction; sign literals +1/-1/+1; report = "
     "mdot*scaling on in-service rows at active junctions. Decided: the chain user column -> pit slot -> matrix row kind "
-    "is complete; not decided: that the solve reproduces the value numerically (C05 tolerance).")
+    "is complete; (R3.5, shared with C06 R6.5) the std-type index of each pump found by np.where over the outer comparison of "
+    "table and lookup is scattered to the pump's own row (index domains of np.where outputs); not decided: that the solve reproduces the value numerically (C05 tolerance).")
 ASSUMPTIONS = [phys.POSITIVITY_TEXT, "transient=False", "tables are non-empty on the analysed path (len(...) assumed non-zero)"]
 TECHNIQUE = "per-class value numbering of component hooks (MRO-resolved), guarded normal-form comparison, slot filling from the repository"
 
@@ -203,13 +204,51 @@ def r3_2(run):
                     select(pc, g(Poly()), g(bcol(colname))), "%s = 0 on PC branches only" % colname, run.where(f, f.node))
     # component array mirrors the table
     ca = c.methods["create_component_array"]
-    src = {U(n.targets[0]).replace(" ", ""): U(n.value).replace(" ", "") for n in own_walk(ca.node) if isinstance(n, ast.Assign)}
-    ok = src.get("pc_array[:,cls.JUNCTS]") == "tbl['controlled_junction'].values" and \
-        src.get("pc_array[:,cls.CONTROLLED]") == "tbl.control_active.values" and src.get("pc_array[:,cls.IN_SERVICE]") == "tbl.in_service.values"
+    got = _component_array_columns(ix, ca)
+    ok = got.get("JUNCTS") == "controlled_junction" and got.get("CONTROLLED") == "control_active" and got.get("IN_SERVICE") == "in_service"
     run.ob("press_control|component-array", ok,
            "JUNCTS/CONTROLLED/IN_SERVICE of the component array mirror controlled_junction/control_active/in_service",
            run.where(ca, ca.node))
     run.floor(24)
+
+
+def _walk(t):
+    from ..arrnf import walk
+    return walk(t)
+
+
+def _component_array_columns(ix, ca):
+    """{component-array column constant: user table column} from the stores `arr[:, cls.X] = <table>.<col>.values`"""
+    from ..arrnf import ANF, FULL, walk
+    r = ANF(ix, ca).run()
+    out = {}
+    for s_ in r.stores():
+        if len(s_.index) == 2 and s_.index[0] == FULL and s_.index[1][0] == "attr" and s_.index[1][1] == ("n", "cls"):
+            v = s_.value
+            while v[0] == "attr" and v[2] in ("values",):
+                v = v[1]
+            col = None
+            if v[0] == "attr":
+                col = v[2]
+            elif v[0] == "idx" and len(v[2]) == 1 and v[2][0][0] == "c":
+                col = v[2][0][1]
+            out[s_.index[1][2]] = col
+    return out
+
+
+def _pump_map_call(f):
+    """(function parameter, functions expr name, argument expr name) of map(lambda x, y: x.get_pressure(y), fcts, vol)"""
+    for n in ast.walk(f.node):
+        if isinstance(n, ast.Call) and isinstance(n.func, ast.Name) and n.func.id == "map" and len(n.args) == 3 \
+                and isinstance(n.args[0], ast.Lambda) and len(n.args[0].args.args) == 2:
+            lam = n.args[0]
+            x, y = [a.arg for a in lam.args.args]
+            b = lam.body
+            if isinstance(b, ast.Call) and isinstance(b.func, ast.Attribute) and b.func.attr == "get_pressure" \
+                    and isinstance(b.func.value, ast.Name) and b.func.value.id == x and len(b.args) == 1 \
+                    and isinstance(b.args[0], ast.Name) and b.args[0].id == y and isinstance(n.args[2], ast.Name):
+                return (x, U(n.args[1]), n.args[2].id)
+    return None
 
 
 def r3_3(run):
@@ -239,8 +278,7 @@ def r3_3(run):
     check_equal(run, "compressor|PL", pit_cols(ki).get("PL", g(Poly.sym("missing"))), want,
                 "PL = p_abs(from) * ratio - p_abs(from) for forward flow and 0 for reverse flow", run.where(f, f.node))
     ca = c.methods["create_component_array"]
-    ok = any(isinstance(n, ast.Assign) and U(n.targets[0]).replace(" ", "") == "compr_array[:,cls.PRESSURE_RATIO]"
-             and U(n.value).replace(" ", "").endswith(".pressure_ratio.values") for n in own_walk(ca.node))
+    ok = _component_array_columns(ix, ca).get("PRESSURE_RATIO") == "pressure_ratio"
     run.ob("compressor|ratio-column", ok, "PRESSURE_RATIO of the component array is the user's pressure_ratio", run.where(ca, ca.node))
     # ---- pump: curve argument vs reported volume flow
     c = component(ix, "Pump")
@@ -249,7 +287,8 @@ def r3_3(run):
     T_N = ix.const("pandapipes.constants", "NORMAL_TEMPERATURE")
     for gas in (False, True):
         ki, k = hook_summary(ix, c, "adaption_before_derivatives_hydraulic", {"fluid.is_gas": gas}, partial=True)
-        vol = k.env.get("vol")
+        mp = _pump_map_call(f)
+        vol = k.env.get(mp[2]) if mp else None
         fl = "gas" if gas else "liquid"
         if vol is None:
             run.ob("pump|%s|curve-argument-found" % fl, False, "the volume flow handed to get_pressure is computed", run.where(f, f.node),
@@ -272,11 +311,13 @@ def r3_3(run):
             check_equal(run, "pump|gas|curve-at-inlet-volume-flow", vol, reported,
                         "the pump curve is evaluated at the inlet volume flow v_N * normfactor_from * A", run.where(f, f.node))
     # the pressure lift really is the curve value of the row's own std type, and is reported as deltap_bar
-    src = U(f.node)
-    ok = "x.get_pressure(y)" in src.replace(" ", "").replace("lambdax,y:", "") or "get_pressure" in src
-    pl_store = [n for n in own_walk(f.node) if isinstance(n, ast.Assign) and U(n.targets[0]).replace(" ", "") == "pump_branch_pit[:,PL]"]
-    run.ob("pump|PL<-get_pressure", ok and len(pl_store) == 1 and U(pl_store[0].value) == "pl",
-           "PL is the array of get_pressure values of each row's own std type", run.where(f, f.node))
+    from ..arrnf import ANF, FULL, contains
+    mp = _pump_map_call(f)
+    ra = ANF(ix, f).run()
+    pl_store = [s_ for s_ in ra.stores() if len(s_.index) == 2 and s_.index[0] == FULL and s_.index[1] == ("k", "idx_branch.PL")]
+    ok = mp is not None and len(pl_store) == 1 and any(x[0] == "call" and x[1] == ("x", "builtins.map") for x in _walk(pl_store[0].value))
+    run.ob("pump|PL<-get_pressure", ok,
+           "PL is the array of get_pressure(volume flow) values, one per row, of the std type functions listed for the rows", run.where(f, f.node))
     ex = ix.lookup_method(c, "extract_results")
     ok = any(isinstance(n, ast.Tuple) and [const_str(e) for e in n.elts] == ["deltap_bar", "pl"] for n in ast.walk(ex.node))
     run.ob("pump|deltap_bar<-pl", ok, "res_pump.deltap_bar reports the PL column", run.where(ex, ex.node))
@@ -347,4 +388,11 @@ def r3_4(run):
     run.floor(19)
 
 
-RULES = [("R3.1", r3_1), ("R3.2", r3_2), ("R3.3", r3_3), ("R3.4", r3_4)]
+def r3_5(run):
+    """a pump is solved with the curve of its own std type only if the std-type index found by np.where over the outer
+    comparison is scattered to the pump's own row (shared with C06 R6.5: index domains of np.where outputs)"""
+    from .c06 import r6_5
+    r6_5(run)
+
+
+RULES = [("R3.1", r3_1), ("R3.2", r3_2), ("R3.3", r3_3), ("R3.4", r3_4), ("R3.5", r3_5)]
